@@ -11,7 +11,8 @@ RULE = ("parameter trees (sequence/choice nesting, every optional marking, incl.
         "choice or the vector is not the plain all-positional call; distinct = distinct (tree, vector, flag)"
         ' ; plus: bad calls with unwrapping disabled, extraArgumentErrors switched on a client in use, unknown keywords with None values and reserved-looking names; rejected calls under faults=False and with an injected reply; wrapper types carrying an attribute (dict key _id)'
         ' ; a clone switching the checking off leaves the original as it was'
-        ' ; the per-call timeout keyword next to the arguments')
+        ' ; the per-call timeout keyword next to the arguments'
+        ' ; repeating parameters as tuples; a wrapper whose named type lives in another namespace')
 ASSUMPTIONS = ["ancestry items are compared by identity (`is`), modelled as unique ids",
                "Python dict preserves keyword insertion order (first leftover keyword is reported)"]
 PARTIAL = [
